@@ -4,6 +4,8 @@ import (
 	"bytes"
 	"context"
 	"crypto/tls"
+	"crypto/x509"
+	"errors"
 	"io"
 	"net/http"
 	"time"
@@ -67,7 +69,27 @@ func newClient(cfg serverCfg, mat *material, httpAddr, grpcAddr string, cs credS
 	}
 	var opts []grpc.DialOption
 	if cfg.TLS {
-		opts = append(opts, grpc.WithTransportCredentials(credentials.NewTLS(tlsCfg.Clone())))
+		gcfg := tlsCfg.Clone()
+		if cs.Authority != "" {
+			// The gRPC client insists that a configured TLS server name equals the
+			// :authority. Leave the name empty and verify the server certificate
+			// (chain to the harness CA, name "localhost") by hand instead.
+			gcfg.ServerName = ""
+			gcfg.InsecureSkipVerify = true //nolint:gosec // verified in VerifyConnection
+			pool := mat.caPool
+			gcfg.VerifyConnection = func(st tls.ConnectionState) error {
+				if len(st.PeerCertificates) == 0 {
+					return errors.New("no server certificate")
+				}
+				vo := x509.VerifyOptions{Roots: pool, DNSName: "localhost", Intermediates: x509.NewCertPool()}
+				for _, ic := range st.PeerCertificates[1:] {
+					vo.Intermediates.AddCert(ic)
+				}
+				_, err := st.PeerCertificates[0].Verify(vo)
+				return err
+			}
+		}
+		opts = append(opts, grpc.WithTransportCredentials(credentials.NewTLS(gcfg)))
 	} else {
 		opts = append(opts, grpc.WithTransportCredentials(insecure.NewCredentials()))
 	}
